@@ -606,3 +606,9 @@ def topo_family(K=0, horizon=4, subset=None):
             if procs:
                 ops += [('fail', procs[0], 0), ('restore', procs[0])]
             yield spec(f'TOPO[{ta}>{tb}|K{K}]', devs, horizon, ops, K)
+
+
+def QUIET(K=0, horizon=4):
+    '''A model that goes quiet long before the horizon (one part, then no event left): runs split after that.'''
+    devs = [src('S', 1, 1), proc('M', ['S'], 0.5), sink('K', ['M'])]
+    return spec(f'QUIET[K{K}]', devs, horizon, [('adjust', 'S', 1), ('block', 'K', True), ('block', 'K', False)], K)
